@@ -14,6 +14,13 @@ def build(fam, seq, as_file, noise=0):
     # the abstract data values 1, 2, 3 are carried by 1, 0.3 and 0.1 + 0.2 (= 0.30000000000000004): equality is exact
     carrier = {1: 1, 2: 0.3, 3: 0.1 + 0.2}
     elems = [T[c](data=[carrier.get(d, d)]) for c, d in seq]
+    if noise >= 2:
+        # the first element was a member of another container before (remove() leaves its previous/next as they were):
+        # equality is about the sequence the container holds now
+        tmp = F["Data"](T[2](data=[5]))
+        tmp.append(T[3](data=[6]))
+        tmp.append(elems[0])
+        tmp.remove(elems[0])
     c = F["Data"](elems[0])
     for e in elems[1:]:
         c.append(e)
